@@ -22,6 +22,11 @@ namespace muscle {
 static uint32 _sessionIDCounter = 0L;
 static uint32 _factoryIDCounter = 0L;
 
+#ifdef MUSCLE_VERIF_HOOKS
+// Verification hook:  lets a test harness make session-ID assignment reproducible (a no-op unless called)
+void MuscleVerifSetNextSessionID(uint32 nextID) {_sessionIDCounter = nextID;}
+#endif
+
 static uint32 GetNextGlobalID(uint32 & counter)
 {
    Mutex * ml = GetGlobalMuscleLock();
